@@ -14,9 +14,15 @@ def max_dname_depth : Nat := 10
 def max_queryer_recursion : Nat := 32
 def max_resolution_attempts : Nat := 3
 def net_call_funcs : List String := ["dialUDP", "exchange"]
+def shape_cached_descent_spends_depth : Bool := true
+def shape_checkloop_before_ns_lookup : Bool := true
+def shape_delegation_spends_depth : Bool := true
 def shape_dialudp_only_from_exchange : Bool := true
+def shape_dname_depth_guard : Bool := false
 def shape_exchange_debit_dominates_dial : Bool := true
 def shape_exchange_guard_dominates_dial : Bool := true
+def shape_level_up_only_when_minimized : Bool := true
+def shape_nomin_retry_only_when_minimized : Bool := true
 def shape_queryer_debit_before_dispatch : Bool := true
 def shape_queryer_depth_check_before_dispatch : Bool := true
 def shape_subquery_debit_before_resolve : Bool := true
